@@ -21,6 +21,11 @@ func checkC06(c *Ctx) {
 	r062(c)
 	r063(c)
 	r064(c, "R06.4 failed-wait-stops-probing")
+	// "stops probing the targets it rejected": disposing the rejected balancer reaches every one of its targets (shared
+	// with C17) ...
+	r172(c, "R06.5 disposal-chain")
+	// ... and a failed command disposes nothing else: the targets of live services keep being probed (shared with C09)
+	r096(c, "R06.6 probing-continues")
 }
 
 func r061(c *Ctx, rule string) {
